@@ -27,6 +27,12 @@ def cases_for(ctx):
     for p, f in sel:
         out.append({"name": "%s[%s]" % (p, "+".join(f)), "parrot": p, "flags": f, "from": 2 if (p in seen and "psk" not in f) else 1})
         seen.add(p)
+    # post-handshake phase with the roles swapped: client sequences x server->client transport x server Read/Write/Close
+    for c in out:
+        if c["flags"] == [] and (c["parrot"] == "iOS-14" or not ctx.quick):
+            c["post"] = 2
+        if c["parrot"] == "Chrome-133" and "cku" in c["flags"]:
+            c["post"] = 2 if ctx.quick else 3
     for c in out:
         if (c["parrot"], c["flags"]) in (("Chrome-58", ["v12", "mtls"]), ("Firefox-120", ["v12"]), ("iOS-14", [])):
             c["recs"] = True   # raw records in place of the client's Finished record (TLS 1.2) / after the handshake
@@ -44,6 +50,7 @@ def run(ctx):
         "only STRUCTURED hostile input is explored: one grammar-node mutation or one inserted message per connection, derived from the captured flights of real parrots; arbitrary byte streams, raw records and coverage-guided fuzzing are not covered by this technique family",
         "a mutated ClientHello is the captured hello of the parrot (sent in place of the live one, because shuffling parrots change layout per connection); later client messages are mutated live with consistent transcripts",
         "raw records: content types {0,20,21,22,23,24,255} x body 0..20 bytes sent by the client in place of its Finished record after ChangeCipherSpec (TLS 1.2, one case per cipher suite class: AES-GCM, ChaCha20-Poly1305, AES-CBC, 3DES) and right after the completed handshake (TLS 1.2 and 1.3)",
+        "post-handshake phase: after a TLS 1.3 handshake + ping/pong the client sends every sequence (bounded length) over {KeyUpdate requested / not requested, application data, a record that does not authenticate, raw garbage, close}, never reads again, the server's outgoing direction is ok / blocked until the deadline / failing, then the server calls Read (until an error), Write, Close (Close may take the library's 5 s close_notify allowance)",
         "uTLS never sends a client CompressedCertificate; that kind (and client EncryptedExtensions where not negotiated) reaches the server only through the insert operator, at every server state",
         "deadline verdicts: transport deadline %d ms, tolerance 1000 ms, watchdog 3 s later; allocation verdicts as in C33" % cov["deadline_ms"],
         "TLC, the Go toolchain and the hooks' faithful placement are trusted",
